@@ -85,9 +85,12 @@ def run(ids):
     for sid in ids:
         d = os.path.join(SEEDED, sid)
         meta = json.load(open(os.path.join(d, "meta.json")))
-        rc, out = sh(f"git -C /repo apply --3way {d}/patch.diff")
+        rc, out = sh(f"git -C /repo apply {d}/patch.diff")
         if rc != 0:
-            rc, out = sh(f"git -C /repo apply {d}/patch.diff")
+            sh("git -C /repo reset -q; git -C /repo checkout -- .")
+            rc, out = sh(f"git -C /repo apply --3way {d}/patch.diff")
+            if rc != 0 or "<<<<<<<" in sh("git -C /repo diff")[1]:
+                rc = 1
         if rc != 0:
             sh("git -C /repo checkout -- . ; git -C /repo reset -q")
             summary[sid] = "PATCH-DOES-NOT-APPLY"
